@@ -86,6 +86,12 @@ func checkC42(env *kernel.Env) {
 		"CREATE PROCEDURE pw() INSERT INTO lg (n) VALUES (99)",
 		"CREATE PROCEDURE pr() SELECT COUNT(*) FROM t",
 		"CREATE PROCEDURE pc(x INT) BEGIN IF x > 0 THEN UPDATE t SET v = v + 1; ELSE SELECT x; END IF; END",
+		// a table whose triggers write no table: the statement that fires them still does
+		"CREATE TABLE w2 (id INT PRIMARY KEY, v INT)",
+		"INSERT INTO w2 VALUES (1, 1), (2, 2)",
+		"CREATE TRIGGER w2i AFTER INSERT ON w2 FOR EACH ROW SET @fired = 1",
+		"CREATE TRIGGER w2u BEFORE UPDATE ON w2 FOR EACH ROW SET @fired = 2",
+		"CREATE TRIGGER w2d AFTER DELETE ON w2 FOR EACH ROW SET @fired = 3",
 		"CREATE TABLE rod.r (id INT PRIMARY KEY, v INT)",
 		"INSERT INTO rod.r VALUES (1, 1), (2, 2)",
 		"CREATE TABLE rod.r2 (id INT PRIMARY KEY)",
@@ -357,6 +363,14 @@ func (st *c42State) gen(cs *c42Sess) c42Stmt {
 				return c42Stmt{q: q, class: "R", kind: "call-not-writing"}
 			}
 			return c42Stmt{q: q, class: "X", kind: "call-not-writing"}
+		}
+		if T.Bool(1, 6) {
+			return c42Stmt{q: []string{
+				fmt.Sprintf("INSERT INTO w2 VALUES (%d, 1)", st.fresh()),
+				"UPDATE w2 SET v = v + 1 WHERE id = 1",
+				"DELETE FROM w2 WHERE id > 2",
+				"REPLACE INTO w2 VALUES (2, 9)",
+			}[T.Draw(4)], class: "W", kind: "write-with-non-writing-trigger"}
 		}
 		switch T.Draw(17) {
 		case 0:
